@@ -436,6 +436,13 @@ pub fn add_venv(rng: &mut Rng, spec: &mut WsSpec, names: &[String]) {
     }
     let meta = if rng.chance(700) { "pytest_foo-1.2.3.dist-info" } else { "pytest_foo-1.2.3.egg-info" };
     spec.extra.push((format!("{}/{}/entry_points.txt", sp, meta), format!("[console_scripts]\nx = y:z\n\n[pytest11]\nfoo = {}\n", modpath)));
+    // a second installed plugin that defines the SAME fixture name (which one wins must not depend on who registered first)
+    if rng.chance(350) {
+        let rel = format!("{}/pytest_bar.py", sp);
+        spec.files.push(PyFile { rel: rel.clone(), items: vec![Item::Fixture(Fx { func: tp_name.clone(), ret: Some("str".into()), ..Default::default() }), Item::Fixture(Fx { func: "bar_only".into(), ..Default::default() })] });
+        spec.third_party_files.push(rel);
+        spec.extra.push((format!("{}/pytest_bar-0.9.dist-info/entry_points.txt", sp), "[pytest11]\nbar = pytest_bar\n".to_string()));
+    }
     // pytest built-ins
     if rng.chance(600) {
         let rel = format!("{}/_pytest/fixtures.py", sp);
